@@ -270,6 +270,10 @@ func C04(c *core.Ctx) error {
 				map[string]any{"variant": v.name, "iface": vi.Iface, "method": vi.Decl, "ops": vi.Ops, "what": vi.What})
 		}
 	})
+	// ---- "one record per call, in call order" when the calls come from two goroutines: the schedule explorer of
+	// C05 (engine E4) on the matryer harness, two threads with one or two operations each, preemption bound 1
+	concExec := c04Concurrent(c)
+	c.Ev.Set("concurrent_executions", concExec)
 	c.Ev.Set("states", total.States)
 	c.Ev.Set("transitions", total.Steps)
 	c.Ev.Set("traces_validated_against_impl", total.Histories)
@@ -282,7 +286,7 @@ func C04(c *core.Ctx) error {
 	c.Ev.Set("corpus_interfaces", len(ifaces))
 	c.Ev.Set("skipped_uncompilable_mocks", core.SortedKeys(skippedAll))
 	c.Ev.Set("exhaustive", done == len(variants))
-	c.Ev.Set("rule", "for every corpus method (focus M, neighbour O in the same interface) and every template-data combination skip-ensure x stub-impl x with-resets, set at root level, at interface level on every interface, and at interface level on every other interface of the file (each mock then driven with its own effective settings): all operation sequences up to the depth over {set MFunc f0/f2/nil, call M with 3 argument tuples incl. zero/nil/empty-variadic, call O, MCalls, ResetMCalls, ResetCalls}, each replayed on a fresh mock through reflection and compared step by step with the list model (exactly-once forwarding, results unchanged, records = arguments in order under exported(parameter name), nil func => panic naming MFunc or stub zero values, resets clear exactly their list, earlier snapshots unchanged); states = distinct (method, model state) pairs reached")
+	c.Ev.Set("rule", "for every corpus method (focus M, neighbour O in the same interface) and every template-data combination skip-ensure x stub-impl x with-resets, set at root level, at interface level on every interface, and at interface level on every other interface of the file (each mock then driven with its own effective settings): all operation sequences up to the depth over {set MFunc f0/f2/nil, call M with 3 argument tuples incl. zero/nil/empty-variadic, call O, MCalls, ResetMCalls, ResetCalls}, each replayed on a fresh mock through reflection and compared step by step with the list model (exactly-once forwarding, results unchanged, records = arguments in order under exported(parameter name), nil func => panic naming MFunc or stub zero values, resets clear exactly their list, earlier snapshots unchanged); states = distinct (method, model state) pairs reached; plus every schedule (preemption bound 1) of two goroutines with up to two operations each on one mock (C05's explorer): records neither lost, duplicated nor mixed up")
 	c.Ev.Assume("a history ends at the nil-func panic (the statement does not say whether such a call is recorded)")
 	c.Ev.Assume("mocks that do not compile are C01's subject and are skipped here (listed in skipped_uncompilable_mocks)")
 	return nil
@@ -295,4 +299,41 @@ func panicSig(stderr string) string {
 		}
 	}
 	return "no-panic-line"
+}
+
+// c04Concurrent explores every schedule (preemption bound 1) of two threads calling / reading / resetting one
+// matryer mock and reports lost, duplicated or mixed-up records and data races as C04 violations.
+func c04Concurrent(c *core.Ctx) int {
+	execs := 0
+	for _, v := range []c05Variant{
+		{"matryer", "matryer", core.M{"with-resets": true}, "c05/matryer_main.go.txt", false, nil, c05iface, "c05/iface_i.go.txt"},
+		{"matryer-noparams", "matryer", core.M{"with-resets": true}, "c05/matryer_main.go.txt", false, nil, c05ifaceNoParams, "c05/iface_j.go.txt"},
+	} {
+		bin, _, gen, err := c05Build(c, "c04conc-"+v.name, v.template, v.data, v.asset, v.testify, v.ifaceSrc, v.ifaceAst)
+		if err != nil {
+			if strings.HasPrefix(err.Error(), "GENFAIL") {
+				c.Report("concurrent-build:"+v.name, err.Error(), map[string]any{"variant": v.name, "generated": gen})
+			} else {
+				c.Harness("concurrent slice %s: %v", v.name, err)
+			}
+			continue
+		}
+		args := []string{"-bound=1", "-t2len=2", "-t3len=0", "-shard=0", "-nshard=1", "-deadline=300"}
+		r := core.Run(c.Scratch, append(core.UserEnv(), "GOMAXPROCS=2"), 10*time.Minute, "", bin, args...)
+		if core.ResourceFailure(r) {
+			c.Skip("concurrent slice %s timed out or was killed", v.name)
+			continue
+		}
+		var res c05Result
+		if r.Exit != 0 || json.Unmarshal([]byte(lastLine(r.Stdout)), &res) != nil {
+			c.Harness("concurrent slice %s: exit %d: %s", v.name, r.Exit, firstN(r.Stderr+r.Stdout, 600))
+			continue
+		}
+		execs += res.Executions
+		for _, vi := range res.Violations {
+			c.Report(fmt.Sprintf("concurrent:%s:%s:%s", v.name, vi.Sig, vi.Scenario), fmt.Sprintf("[two goroutines on one %s mock, preemption bound 1] %s\n schedule: %s", v.name, vi.What, strings.Join(vi.Steps, " ")),
+				map[string]any{"variant": v.name, "threads": vi.Threads, "choices": vi.Choices, "what": vi.What})
+		}
+	}
+	return execs
 }
